@@ -134,7 +134,8 @@ class C13:
     id = "C13"
     cases = {"quick": 40, "thorough": 2500}
     rule = ("generated projects of 1-5 files in nested directories (names with dots and dashes, directories called src/target), "
-            "each file defining a class and a function and using those of other files through `from m import X` (acyclic, "
+            "each file defining a class and a function (a fifth each also an interface, a marker type, nullable / tuple / function "
+            "annotations, a sqrt: imports the generator adds per file) and using those of other files through `from m import X` (acyclic, "
             "independent of path order), a non-.mamba bystander file and an empty directory; 40% with one faulty file (lexical, "
             "syntax, type, undefined name); default and custom source/output directory names; fresh and pre-populated output "
             "directory (also with longer outputs of an earlier run lying at the output paths); files without any statement (zero "
